@@ -201,4 +201,41 @@ add("C34", "c_files",
     text="A download either fails or equals the genuine file; honest servers must succeed; every getCdnFile range is a valid aligned window and the requests of a chunk tile the asked range (complete grid). One listed known finding.",
     note="Known finding C34-short-cdn-reply is not repairable without editing an upstream test.")
 
+
+CONN = {"GOMAXPROCS": "1"}
+add("C07", "c_mtproto",
+    [T("TestC07Buf", 30000, 300000), T("TestC07Conn", 3000, 30000, env=CONN)],
+    pre=["TestC07Regression"],
+    rule="(a) id sequences over a small alphabet (duplicates and lower-than-all frequent) against a sorted-set model of the last N accepted ids, N in {1,2,3,8,100}; (b) a running mtproto.Conn in a bubble receives 1..25 generated frames built by the reference encryptor: valid, exact replay, replay of an id with new content, client-typed id, type-2 id, 301/299 s old, 31/29 s ahead, wrong session, lower-but-fresh id, then one of padding 0/4/8/12/1024/1040, payload length not divisible by 4, wrong key, flipped bit. non-trivial = replay of a non-latest id after >=2 accepted (a) / a frame differing from valid in exactly one rule (b); distinct by sequence",
+    technique="model-based PBT (rapid) + reference-encrypted adversarial frames against a live connection on virtual time (testing/synctest)",
+    text="Consume must agree with the security-guideline rule exactly; at connection level exactly the frames the reference rule accepts reach Handler.OnMessage.",
+    note="Frames are sent one at a time with quiescence in between (the connection handles each frame on its own goroutine).",
+    assumptions=["hard-invalid frames (bad padding/key/length) may also end the connection; they are sent last"])
+add("C08", "c_mtproto",
+    [T("TestC08Gen", 50000, 500000), T("TestC08Conn", 1500, 15000, env={"GOMAXPROCS": "4"})],
+    pre=["TestC08Regression"],
+    rule="(a) MessageIDGen with a scripted clock: deltas {0,1,2,3,4,5,9,10,11 ns, 1 us, 1 ms, 1 s, -1 ns, -1 s, 15.6 ms} incl. second-boundary starts; (b) 2..24 concurrent Invoke/Ping calls in 1..3 waves on one connection, the peer decodes every frame. non-trivial = >=1 delta in 1..3 ns or a backwards jump (a) / both content and service messages (b); distinct by delta list / op list",
+    technique="PBT (rapid) with a scripted clock; history oracle over frames decoded by the reference peer",
+    text="Ids strictly increase, are divisible by 4, decoded time monotone and within 10 ns per call of the highest clock reading; in msg_id order content messages have seq_no 2k+1 and service messages 2k.",
+    note="Retransmissions (same id, seq and body) are de-duplicated first.")
+add("C23", "c_mtproto",
+    [T("TestC23", 10000, 100000, env=CONN), T("TestC23Corpus", 1, 1, rapid=False, env=CONN)],
+    rule="payloads handed to the connection's message handler while 0..3 real invocations are pending: generated service messages (rpc_result with plain/gzipped result, rpc_error, pong or nothing inside; pong; msgs_ack; bad_msg_notification; new_session_created; future_salts; unknown types; msg_detailed_info) wrapped in containers and gzip up to depth 4 with req_msg_ids from {a pending id, random}; mutated files of the 14101-entry handle_message corpus; raw bytes with known type ids; plus every corpus file once. non-trivial = payload decodes at least one level or names a pending id; distinct by payload description",
+    technique="grammar-based PBT (rapid) through a build-tagged entry point on the test goroutine + full corpus replay",
+    text="No panic; a pending invocation completes only by a payload that names its id, with exactly those bytes / that rpc error; the others stay pending and are then completed by an explicit matching result.",
+    note="When handling returns an error (malformed sibling, duplicate result) the client drops the rest of that container; delivery of the siblings is not asserted.",
+    fuzz=[])
+add("C41", "c_mtproto",
+    [T("TestC41Salts", 30000, 300000), T("TestC41Conn", 3000, 30000, env=CONN)],
+    rule="(a) salts.Salts under store (fresh, re-sent identical triples, already expired, far future) / clock advance / reset / get with a fixed lookahead, against a map model; (b) a live connection: new_session_created salt, future_salts answers with overlapping / duplicated / expired windows, virtual sleeps up to 3 h, invokes, bad_server_salt once or twice for a request. non-trivial = an expired salt is dropped or a duplicate/expired triple stored (a) / clock crosses a salt expiry or a bad-salt event (b); distinct by action list",
+    technique="model-based stateful PBT (rapid) + live connection against the reference peer on virtual time",
+    text="Get returns only salts valid beyond the deadline and fails only when none is; every client frame carries a salt the server told or a stored future salt valid beyond now+5min; bad_server_salt => exactly one re-send with the new salt; a second one fails the call.",
+    note="Tolerated and counted: the client keeps a previously stored future salt when every stored salt has expired and the server told nothing newer (no valid salt exists then).")
+add("C43", "c_mtproto",
+    [T("TestC43Ping", 3000, 30000, env=CONN), T("TestC43KeepAlive", 3000, 30000, env=CONN)],
+    rule="1..3 concurrent Ping calls with deadlines 1..20 s and 0..3 scripted pongs each (own id, id of another in-flight ping, random id, duplicate) at drawn virtual times; keep-alive loop with interval/timeout drawn (timeout < interval) and per-round pong latency prompt / timeout-1ms / timeout+1ms / never / wrong id. non-trivial = a non-matching or duplicate pong (ping) / latency within 1 ms of the timeout or wrong id (keep-alive); distinct by plan",
+    technique="PBT on virtual time (rapid + testing/synctest) against the reference peer",
+    text="Ping returns nil iff a pong with its own id arrived before its deadline, at that instant, else the deadline error at the deadline; Conn.Run ends with an error within the ping timeout of an unanswered keep-alive ping and keeps running otherwise.",
+    note="")
+
 NOT_CLAIMED = {}
